@@ -10,7 +10,9 @@ later = sum(1 for m in metas if not m.get("verified_by_us", {}).get("detected") 
 missed = n - quick - later
 head = ("%d seeded changes (each verified by us: applies to /repo HEAD of the time, the family's unit tests still pass with it, the agent's demo "
         "passes without and fails with it).  %d were detected by the property's quick check as it stood, %d only after the check was strengthened "
-        "(generator gaps, never oracle loosening), %d are still missed.\n\n" % (n, quick, later, missed))
+        "(generator gaps, never oracle loosening), %d are still missed.  Each `meta.json` names in `applies_to_repo_commit` the newest `/repo` "
+        "commit its `patch.diff` applies to: %d apply to the final HEAD, %d touch lines that a later `fix:` commit rewrote and apply to the "
+        "commit named there.\n\n" % (n, quick, later, missed, sum(1 for m in metas if not m.get("applies_note")), sum(1 for m in metas if m.get("applies_note"))))
 s = open(os.path.join(R, "DESIGN.md")).read()
 b, e = "<!-- SEED-TABLE-BEGIN -->", "<!-- SEED-TABLE-END -->"
 block = b + "\n" + head + table + "\n" + e
